@@ -31,8 +31,8 @@ ASSUMPTIONS = [
     "the API is deterministic and (for the worker comparison) stateless",
     "per-case id header, User-Agent and Host (port differs per run) are excluded from the comparison",
 ]
-MIN_EVALUATIONS = {"quick": 20, "thorough": 300}
-MIN_NONTRIVIAL = {"quick": 15, "thorough": 200}
+MIN_EVALUATIONS = {"quick": 20, "thorough": 120}
+MIN_NONTRIVIAL = {"quick": 15, "thorough": 80}
 REACH_FLOORS = {"fresh_process_pairs": 10, "same_process_pairs": 5, "worker_comparisons": 5, "different_seed_pairs_that_differ": 1}
 SHARD_TIMEOUT = {"quick": 900, "thorough": 5400}
 
